@@ -117,30 +117,46 @@ def check(ctx):
     for b, s in aggs:
         f = dict((k, render(x)) for k, x in Canon(prog, b).site(s)[4])
         ctx.ob("topic-set", "a new peer starts with an empty topic set", re.match(r"^(std::default::Default::default\(\)|<std::collections::BTreeSet as std::default::Default>::default\(\)|std::collections::BTreeSet::new\(\))$", f.get(TOPICS, "")) is not None, s.loc(), "%s: topics = %s" % (b.short[-40:], f.get(TOPICS)))
+    # a private helper that inserts one of its parameters into the set it is given is judged at its call sites (one level up)
+    grow2 = []
+    for b, cb, s, n, g_, idx in grow:
+        a = cb.args(s)
+        if n.endswith("BTreeSet::insert") and idx == 0 and len(a) == 2 and a[1][0] == "arg" and b.kind != "closure":
+            callers = prog.callers(G, "^" + re.escape(b.npath) + "$")
+            base = a[0]
+            while base[0] in ("field", "downcast"):
+                base = base[1]
+            if callers and base[0] == "arg":
+                for cs_ in callers:
+                    cc = Canon(prog, cs_.body)
+                    ca = cc.args(cs_)
+                    tgt = ("field", ca[base[1] - 1], TOPICS, "libp2p_gossipsub::types::PeerDetails")
+                    grow2.append((cs_.body, cc, cs_, n, tgt, cs_.body.site_expr(cs_)[2][a[1][1] - 1], b.npath.split("::")[-1]))
+                continue
+        grow2.append((b, cb, s, n, a[0] if a else None, b.site_expr(s)[2][1] if len(a) == 2 else None, None))
     seen_fn = {}
-    for b, cb, s, n, _, idx in grow:
+    for b, cb, s, n, target, value, via in grow2:
         fn = b.npath.split("::")[-1]
         seen_fn[fn] = seen_fn.get(fn, 0) + 1
         tag = fn if seen_fn[fn] == 1 else "%s#%d" % (fn, seen_fn[fn])
-        a = cb.args(s)
-        if not n.endswith("BTreeSet::insert") or idx != 0 or len(a) != 2:
+        if not n.endswith("BTreeSet::insert") or value is None or target is None or not is_peer_topics(target):
             ctx.ob("topic-set", "%s: inserted topic comes from the subscription filter's output" % tag, False, s.loc(), "not an insert(topic) call: %s" % n)
             continue
         lp = loop_of(b, s.bb)
-        fb, rv = None, render(a[1])
+        fb, rv = None, render(cb.x(value))
+        cl = cb
         if lp:
             cl = Canon(prog, b, {lp[1]: "it"})
-            rv = render(cl.args(s)[1])
+            rv = render(cl.x(value))
             ini = cl.init(lp[1])
             for c in mir.walk(ini) if ini else []:
                 if c[0] == "call" and re.search(SF, strip_generics(c[1])):
                     fb = c[3]
-            # the iterated collection must be the Ok value of the filter, nothing else mixed in
             if fb is not None and not re.match(r"^<[^()]*>::into_iter\(.*filter_incoming_subscriptions\(.*\)@Ok\.0\)$|^.*::iter\(.*filter_incoming_subscriptions\(.*\)@Ok\.0\)$", render(ini)):
                 fb = None
         ok = fb is not None and re.match(r"^%s(\.\w+)*\.topic_hash$" % NEXT, rv) is not None
         ctx.ob("topic-set", "%s: inserted topic comes from the subscription filter's output" % tag, ok, s.loc(),
-               "topic = %s, element of the iteration over filter_incoming_subscriptions(..)" % rv[-70:] if ok else
+               "topic = %s, element of the iteration over filter_incoming_subscriptions(..)%s" % (rv[-70:], " (through helper %s)" % via if via else "") if ok else
                "the inserted topic `%s` does not originate from the result of filter_incoming_subscriptions: the peer can make us track topics the filter does not allow / beyond its limits" % rv[-90:])
         if fb is None:
             continue
@@ -148,8 +164,8 @@ def check(ctx):
         okedge, _ = result_edges(cb, fb)
         ctx.ob("topic-set", "%s: insert only when the filter accepted the request" % tag, bool(okedge) and b.must_pass_edges(s.bb, okedge), s.loc(), "insert dominated by the Ok edge of the filter")
         fa = cb.args(fsite)
-        same_set = len(fa) == 3 and render(fa[2]) == render(a[0])
-        ctx.ob("topic-set", "%s: the filter saw the topic set that is being extended" % tag, same_set, fsite.loc(), "filter's currently_subscribed_topics = %s ; insert target = %s" % (render(fa[2])[-60:] if len(fa) == 3 else "?", render(a[0])[-60:]))
+        same_set = len(fa) == 3 and render(fa[2]) == render(target)
+        ctx.ob("topic-set", "%s: the filter saw the topic set that is being extended" % tag, same_set, fsite.loc(), "filter's currently_subscribed_topics = %s ; insert target = %s" % (render(fa[2])[-60:] if len(fa) == 3 else "?", render(target)[-60:]))
         ctx.ob("topic-set", "%s: the filter is the behaviour's configured filter" % tag, len(fa) == 3 and re.match(r"^\$1\.\w+$", render(fa[0])) is not None, fsite.loc(), render(fa[0]) if fa else "")
         if fn == "handle_received_subscriptions":
             acts = [at for at in cl.guards(s.bb) if at[0] == "var" and re.match(r"^%s(\.\w+)*\.action$" % NEXT, at[1])]
